@@ -63,10 +63,22 @@ def error_replies(log):
     return out
 
 
+def requested(log):
+    """correlation ids of the requests the engine published"""
+    out = set()
+    for fr in log:
+        if fr["op"] == "publish" and fr.get("conn") != "worker":
+            cid = (fr.get("props") or {}).get("correlation_id")
+            if cid is not None:
+                out.add(cid)
+    return out
+
+
 def skeleton(machine, log, failed):
     """the skeleton of the (crash-free) run whose broker log is `log`; `failed`: it ended FAILED"""
     evs = published_events(log)
     errs = error_replies(log)
+    reqd = requested(log)
     visits = []       # (ordinal, message id, name, stack as a tuple of (ID, Index), retry count)
     for i, mid, st in evs:
         br = st.get("Branch") or []
@@ -91,6 +103,9 @@ def skeleton(machine, log, failed):
             if ty == "Task":
                 if not str(st.get("Resource", "")).startswith("arn:aws:rpcmessage:local::function:"):
                     raise Unsupported("a Task that is not a function call")
+                if mid not in reqd:
+                    # (its Parameters could not be evaluated, ...: the visit fails in the handler, as a Fail state does)
+                    raise Unsupported("a Task visit that ended without a request")
                 if mid in errs and last and prefix:
                     # an error at the end of a branch: it fails the fan-out; supported when that fails the execution
                     if not failed or any(len(v[3]) < len(prefix) and v[0] > i for v in visits):
@@ -122,6 +137,10 @@ def skeleton(machine, log, failed):
                     branches = [build(prefix + ((jid, ix),)) for ix in range(width)]
                 mc = st.get("MaxConcurrency", 0) if ty == "Map" else 0
                 items.append({"par": branches, "mc": mc if isinstance(mc, int) and mc > 0 else 0})
+            elif ty == "Fail" and prefix:
+                # it fails its fan-out from the event's own handler, next to branches that are still running:
+                # a visit the skeletons do not have
+                raise Unsupported("a Fail state inside a branch")
             elif ty in ("Pass", "Choice", "Succeed", "Fail"):
                 items.append("S")
             else:
